@@ -232,6 +232,8 @@ V("v_palette_mapper_new", "utils_palette", "util::PaletteMapper::new for EVERY p
 V("v_palette_mapper_lookup", "utils_palette", "util::PaletteMapper::lookup: alpha != 255 -> transparent index; otherwise the mapped index of the colour key or the failure index", ["util::PaletteMapper::lookup"], fn="PaletteMapper::lookup", witness="x_utils")
 V("v_file_tilemap", "tilemap_api", "AsepriteFile::tilemap(layer, frame) for EVERY validated sprite: Some exactly for a tilemap cel of a tilemap layer whose tileset exists (ids in range); then it carries that tileset and that cel, and its logical size is ceil(canvas / tile size) in both directions; no division by zero (tile size >= 1 from the tileset decoder), the assert! cannot fire, the u16 casts are lossless",
   ["file::AsepriteFile::tilemap", "cel::Cel::is_tilemap", "cel::Cel::raw_cel", "tileset::TileSize::from", "tilemap::Tilemap::width", "tilemap::Tilemap::height", "tilemap::Tilemap::tile_size"], fn="AsepriteFile::tilemap", witness=["x_tilemap_views", "x_usable_after_load"])
+V("v_tilesets_get", "validate_tilesets", "TilesetsById::get(id) is the map lookup of TilesetId(id) (the assumed contract used by the compose / validate units, here checked on the real one-liner over the HashMap shim)", ["tileset::TilesetsById::get", "tileset::TilesetId::from_raw"], fn="TilesetsById::get")
+V("v_tilesets_add", "validate_tilesets", "TilesetsById::add stores the tileset under its own id (a later chunk with the same id replaces the earlier one)", ["tileset::TilesetsById::add", "tileset::TilesetsById::new"], fn="TilesetsById::add")
 V("v_tilesets_validate", "validate_tilesets", "TilesetsById::validate for EVERY tileset table: Ok => the same tileset ids survive; each has its pixels embedded (a tileset without embedded pixels is refused) and validated (same data; indexed pixels all in the palette); id, tile count, tile size, base index, name and external reference unchanged",
   ["tileset::TilesetsById::validate"], fn="TilesetsById::validate", witness=["x_refusals", "x_usable_after_load"])
 ACCESSORS = [('AsepriteFile', 'width'), ('AsepriteFile', 'height'), ('AsepriteFile', 'size'), ('AsepriteFile', 'pixel_format'), ('AsepriteFile', 'is_indexed_color'), ('AsepriteFile', 'transparent_color_index'), ('AsepriteFile', 'num_tags'), ('AsepriteFile', 'tag'), ('AsepriteFile', 'sprite_user_data'), ('Frame', 'id'), ('Frame', 'duration'), ('Layer', 'data'), ('Layer', 'id'), ('Layer', 'flags'), ('Layer', 'opacity'), ('Layer', 'layer_type'), ('Layer', 'is_tilemap'), ('Layer', 'user_data'), ('Layer', 'parent'), ('Cel', 'raw_cel'), ('Cel', 'is_empty'), ('Cel', 'is_tilemap'), ('Cel', 'top_left'), ('Cel', 'user_data'), ('Tag', 'from_frame'), ('Tag', 'to_frame'), ('Tag', 'animation_direction'), ('Tag', 'user_data')]
@@ -377,13 +379,13 @@ prop("C03", "proof", BLEND_LEAVES + BLEND_WRAPPERS + ["k_parse_blend_mode", "x_m
 prop("C04", "proof", ["x_cel_table_memory"] + VDEC_IDS + ["v_chunk_read", "v_chunk_read_all", "v_parse_chunk_type", "v_celsdata_new", "v_parseinfo_new", "v_parseinfo_validate", "v_celsdata_validate", "v_rawcel_validate", "v_layersdata_validate", "v_tilesets_validate", "v_compute_parents", "v_from_vec", "k_check_chunk_bytes", "k_scale_6bit", "k_parse_chunk_type", "k_parse_pixel_format"] + LAYER_DEC + TAGS_DEC + SLICE_DEC + PAL_DEC + EXT_DEC
      + TS_DEC + CEL_DEC + UD_DEC + CP_DEC + READER + ["k_tilemap_bits", "k_tile_parse", "k_cels_table", "v_read_aseprite", "v_parse_frame", "v_ud_set_tag_user_data", "v_ud_add_user_data", "v_ud_add_cel", "v_cel_mut", "x_decoder_contracts", "x_total_load"],
      "Totality contracts: every Kani decoder harness also discharges the automatic no-panic / no-overflow / in-bounds checks for all contents of its payload size; Verus proves compute_parents and that from_vec establishes its precondition. Whole-load totality (glue, zlib, stack depth, allocation) is fault enumeration in an isolated child process.", level_note_extra="fault enumeration for the composition")
-prop("C05", "proof", ["v_file_tilemap", "v_from_vec", "v_parseinfo_validate", "v_celsdata_new", "v_parseinfo_new", "v_tilesets_validate", "v_celsdata_validate", "v_rawcel_validate", "v_imagecontent_validate", "v_layersdata_validate", "v_write_cel", "v_frame_image", "v_layer_image", "v_validate_indexed", "v_rawpixels_validate", "v_indexed_as_rgba", "v_dec_tilemap", "v_dec_tileset", "v_write_raw_cel", "v_write_tilemap_cel", "v_tile_slice", "v_tilemap_tile", "v_tilemap_lookup", "v_tile_offsets", "v_is_visible", "v_pixels_per_tile", "k_validate_indexed", "k_indexed_as_rgba", "k_tileset_head_34", "k_tileset_head_44", "x_usable_after_load"],
+prop("C05", "proof", ["v_tilesets_get", "v_file_tilemap", "v_from_vec", "v_parseinfo_validate", "v_celsdata_new", "v_parseinfo_new", "v_tilesets_validate", "v_celsdata_validate", "v_rawcel_validate", "v_imagecontent_validate", "v_layersdata_validate", "v_write_cel", "v_frame_image", "v_layer_image", "v_validate_indexed", "v_rawpixels_validate", "v_indexed_as_rgba", "v_dec_tilemap", "v_dec_tileset", "v_write_raw_cel", "v_write_tilemap_cel", "v_tile_slice", "v_tilemap_tile", "v_tilemap_lookup", "v_tile_offsets", "v_is_visible", "v_pixels_per_tile", "k_validate_indexed", "k_indexed_as_rgba", "k_tileset_head_34", "k_tileset_head_44", "x_usable_after_load"],
      "Assume/guarantee: the renderers are proved panic-free under explicit preconditions R-pre (Verus, unbounded); that validation establishes R-pre for everything that loads is checked by fault enumeration: every loadable corrupted file is driven through every accessor.")
 prop("C06", "proof", ["v_indexed_as_rgba", "v_gray_into_rgba", "v_is_background", "v_rawpixels_validate", "v_dec_cel", "v_dec_cel_content", "v_dec_cel_common", "v_dec_image_size", "v_pixel_count", "v_cel_is_empty", "v_cel_frame", "v_cel_layer", "v_celsdata_cel"] + PIX + ["k_cel_chunk_15", "k_cel_chunk_17", "k_cel_chunk_18", "k_cel_raw_rgba_28", "k_cel_raw_gray_24", "k_cel_raw_indexed_23", "v_write_raw_cel", "x_frames_vs_spec", "x_roundtrip_structure", "x_neutral_encodings"],
      "Pixel conversions proved for all values; cel header / raw payload decode on fixed sizes; placement + alpha scaling is the Verus rasteriser contract; zlib storage, linked cels and the transparent-index rule end-to-end are bounded-exec against the composition spec.")
 prop("C07", "exploration", ["v_read_aseprite", "v_parse_frame", "v_celsdata_add_cel", "k_parse_chunk_type", "k_layer_chunk_24", "k_tileset_head_44", "x_neutral_encodings", "x_cel_order_irrelevant"],
      "Mostly glue and zlib: bounded exploration over seeded models x ~30 encoding choices; contract part: ignorable chunk codes map to the three ignorable kinds (all u16), trailing payload bytes do not change a decoder's result (layer / tileset shapes with slack bytes).")
-prop("C08", "proof", ["v_file_tilemap", "v_write_tilemap_cel", "v_dec_tilemap", "v_dec_bitmask", "v_dec_tileset", "k_tile_parse", "k_tile_bitmask_header", "k_tilemap_bits", "k_pixels_per_tile", "v_tilemap_tile", "v_tilemap_lookup", "v_tile_offsets", "v_tile_slice", "v_pixels_per_tile", "v_write_tilemap_cel", "x_tilemap_views"],
+prop("C08", "proof", ["v_tilesets_get", "v_tilesets_add", "v_file_tilemap", "v_write_tilemap_cel", "v_dec_tilemap", "v_dec_bitmask", "v_dec_tileset", "k_tile_parse", "k_tile_bitmask_header", "k_tilemap_bits", "k_pixels_per_tile", "v_tilemap_tile", "v_tilemap_lookup", "v_tile_offsets", "v_tile_slice", "v_pixels_per_tile", "v_write_tilemap_cel", "x_tilemap_views"],
      "Tile word decode, tile lookup and tile slicing are contracts over unbounded sizes; the Tilemap / Tileset views need a loaded sprite and are compared with each other and with the model on seeded sprites.")
 prop("C09", "proof", ["v_acc_layer_parent", "v_compute_parents", "v_from_vec", "v_is_visible", "v_frame_image", "x_forest_exhaustive"],
      "compute_parents is proved by Verus on the real text for ALL layer sequences (any length, any depth) whose first level is 0 - the forests of the property are a subset; from_vec establishes that precondition; Layer::is_visible is proved equal to 'own flag and all ancestors' flags' for every table satisfying the parent contract. Layer::parent and the compositing gate are exhaustively executed for every forest of up to 6 (quick) / 8 (thorough) layers and every flag assignment.")
